@@ -81,16 +81,17 @@ Section Measure.
     (* the walk returns the boundary of the cells in both / in either polygon, and does not fail *)
     g_walk_inter : forall l, bool_oper OP Arr (-1) i12 i21 = RPoly l -> req (enclosed l) (rand RA RB);
     g_walk_union : forall l, bool_oper OP Arr 1 i12 i21 = RPoly l -> req (enclosed l) (ror RA RB);
-    g_walk_total : forall s l, bool_oper OP Arr s i12 i21 <> RError l
+    g_total_inter : forall l, bool_oper OP Arr (-1) i12 i21 <> RError l;
+    g_total_union : forall l, bool_oper OP Arr 1 i12 i21 <> RError l
   }.
 
   Definition result (Arr : arrangement) (sign : Z) (i12 i21 : bool) (RA RB : region cell) : option (region cell) :=
     oper_region cell enclosed RA RB (bool_oper OP Arr sign i12 i21).
 
-  Lemma crossing_gives_poly Arr s i12 i21 RA RB : geometry_ok Arr i12 i21 RA RB -> ~ no_crossing Arr ->
+  Lemma crossing_gives_poly Arr s i12 i21 : (forall l, bool_oper OP Arr s i12 i21 <> RError l) -> ~ no_crossing Arr ->
     exists l, bool_oper OP Arr s i12 i21 = RPoly l.
   Proof.
-    intros G N. pose proof (g_walk_total _ _ _ _ _ G s) as NE.
+    intros NE N.
     unfold no_crossing in N. unfold bool_oper in *.
     destruct (first_inter OP Arr (rot_edges (n1 Arr) 0 false)) as [[x e1]|]; [|congruence].
     destruct (walk OP Arr _ s false x e1 (xe2 x) []) as [l|l]; [now exists l|]. exfalso. now apply (NE l).
@@ -103,8 +104,8 @@ Section Measure.
                 meas U = meas RA + meas RB - meas I.
   Proof.
     intros G P. assert (N : ~ no_crossing Arr) by (intros N; apply P; now apply (g_cross _ _ _ _ _ G)).
-    destruct (crossing_gives_poly Arr (-1) _ _ _ _ G N) as (li & Ei).
-    destruct (crossing_gives_poly Arr 1 _ _ _ _ G N) as (lu & Eu).
+    destruct (crossing_gives_poly Arr (-1) _ _ (g_total_inter _ _ _ _ _ G) N) as (li & Ei).
+    destruct (crossing_gives_poly Arr 1 _ _ (g_total_union _ _ _ _ _ G) N) as (lu & Eu).
     exists (enclosed li), (enclosed lu). unfold result. rewrite Ei, Eu. cbn.
     pose proof (g_walk_inter _ _ _ _ _ G li Ei) as Hi. pose proof (g_walk_union _ _ _ _ _ G lu Eu) as Hu.
     repeat split; try assumption.
@@ -161,3 +162,37 @@ Section Measure.
     unfold result, bool_oper. unfold no_crossing in N. rewrite N, E, F. split; reflexivity.
   Qed.
 End Measure.
+
+Lemma setops_laws :
+  forall (cell : Type) (cells : list cell) (mu : cell -> R), (forall c, In c cells -> 0 <= mu c) ->
+  forall (T : Type) (OP : ops T) (enclosed : list node -> region cell)
+         (Arr Arr' : arrangement) (i12 i21 i12' i21' : bool) (RA RB : region cell),
+  geometry_ok cell cells OP enclosed Arr i12 i21 RA RB ->
+  geometry_ok cell cells OP enclosed Arr' i12' i21' RB RA ->
+  let res := result cell OP enclosed in
+  (proper_overlap cell cells RA RB ->
+     exists I U I' U',
+       res Arr (-1)%Z i12 i21 RA RB = Some I /\ res Arr 1%Z i12 i21 RA RB = Some U /\
+       res Arr' (-1)%Z i12' i21' RB RA = Some I' /\ res Arr' 1%Z i12' i21' RB RA = Some U' /\
+       meas cell cells mu I = meas cell cells mu I' /\ meas cell cells mu U = meas cell cells mu U' /\
+       meas cell cells mu I <= Rmin (meas cell cells mu RA) (meas cell cells mu RB) /\
+       meas cell cells mu U = meas cell cells mu RA + meas cell cells mu RB - meas cell cells mu I) /\
+  (rdisj cell cells RA RB -> nonempty cell cells RA -> nonempty cell cells RB ->
+     res Arr (-1)%Z i12 i21 RA RB = None) /\
+  (rsub cell cells RA RB ->
+     res Arr (-1)%Z i12 i21 RA RB = Some RA /\ res Arr 1%Z i12 i21 RA RB = Some RB).
+Proof.
+  intros cell cells mu Hmu T OP enclosed Arr Arr' i12 i21 i12' i21' RA RB G G' res. subst res.
+  split; [|split].
+  - intros P.
+    assert (P' : proper_overlap cell cells RB RA).
+    { intros [H|[H|H]]; apply P; [right; left; exact H | left; exact H | right; right].
+      intros c Hc. rewrite andb_comm. now apply H. }
+    destruct (overlap_laws cell cells mu Hmu OP enclosed _ _ _ _ _ G P) as (I & U & E1 & E2 & _ & _ & L1 & L2).
+    destruct (overlap_laws cell cells mu Hmu OP enclosed _ _ _ _ _ G' P') as (I' & U' & E1' & E2' & _).
+    exists I, U, I', U'.
+    destruct (overlap_commutes cell cells mu Hmu OP enclosed _ _ _ _ _ _ _ _ _ _ _ _ G G' P E1 E2 E1' E2') as (C1 & C2).
+    repeat split; assumption.
+  - intros D NA NB. exact (disjoint_none cell cells OP enclosed _ _ _ _ _ G D NA NB).
+  - intros S. exact (contained_self cell cells OP enclosed _ _ _ _ _ G S).
+Qed.
